@@ -238,7 +238,7 @@ def gen_history(rng, case, nops, allow=("commit", "checkout", "status", "push", 
     return case
 
 
-def pipeline_project(rng, cid, n, cyclic=False, tier="quick", all_edges=None, sink=False):
+def pipeline_project(rng, cid, n, cyclic=False, tier="quick", all_edges=None, sink=False, lossy=0.0):
     """n stages with vcmd commands; edges j->i (i consumes an output of j). Returns the case and the
     edge list. Outputs: file out/o<i>.txt or directory out/d<i> (vcmd writes f and sub/g into it)."""
     init = []
@@ -301,7 +301,9 @@ def pipeline_project(rng, cid, n, cyclic=False, tier="quick", all_edges=None, si
         seen = set()
         args_in = [x for x in args_in if not (x in seen or seen.add(x))]
         out_arg = outpath[i] + (b"/" if kinds[i] == "dir" else b"")
-        cmd = b"vcmd S%d " % i + out_arg + b" -- " + b" ".join(args_in)
+        # `vlen`: the outputs depend on the lengths of the inputs only (a changed input can reproduce identical outputs)
+        prog = b"vlen" if (lossy and rng.random() < lossy) else b"vcmd"
+        cmd = prog + b" S%d " % i + out_arg + b" -- " + b" ".join(args_in)
         st = dict(cmd=cmd.strip(), wd=b".", out=[(outpath[i], "d" if kinds[i] == "dir" else "")])
         if ins:
             st["in"] = ins
